@@ -415,9 +415,274 @@ def dist_terms_rule(ctx):
     return res
 
 
+# ---------------------------------------------------------------------------------------
+# TRUNC-NORM: the normaliser of the box-restricted Gaussian prior
+# ---------------------------------------------------------------------------------------
+
+
+class _NoForm(Exception):
+    pass
+
+
+def trunc_norm_rule(ctx):
+    """TRUNC-NORM.  LotkaVolterraOscillating is a diagonal Gaussian N(m, s^2 I) restricted to a box
+    [lo, hi]^d, written as  log N(v) + log U(v) + c  with U the uniform density of the box.  It has total
+    mass one iff
+        c = - sum_i log( 1/2 [ erf((hi - m_i) / (s sqrt 2)) - erf((lo - m_i) / (s sqrt 2)) ] )  +  d log(hi - lo)
+    (the Gaussian mass of the box, and the box volume the uniform factor divides by).  The constructor
+    and log_prob are expanded symbolically; the constant is evaluated by the checker's own evaluator as a
+    form  const + sum_k w_k * sum_i log( sum_j a_kj erf(p_kj + q_kj m_i) )  with numeric w, a, p, q and the
+    mean m the only symbol, and compared with the form above built from the s, lo, hi, d the constructor
+    hands to MultivariateNormal / BoxUniform.  A closed-form identity, like the Gaussian constant of
+    BASE-TERMS; no integral is computed."""
+    import math
+
+    from ..astutil import _int_eval, _NoEval
+    from ..symexp import shash
+
+    p = ctx.p
+    res = RuleResult("TRUNC-NORM", "the box-restricted Gaussian prior adds -log of the Gaussian mass of the box, 1/2 [erf((hi - m)/(s sqrt 2)) - erf((lo - m)/(s sqrt 2))] per dimension, and compensates the uniform factor's volume")
+    cls = p.find_class("LotkaVolterraOscillating", "nflows.distributions.uniform")
+    if cls is None:
+        raise AnalysisIncomplete("LotkaVolterraOscillating not found")
+    init, lp = cls.methods.get("__init__"), cls.methods.get("log_prob")
+    if init is None or lp is None:
+        raise AnalysisIncomplete("LotkaVolterraOscillating.__init__ / log_prob missing")
+    paths = [q for q in paths_of(init.node) if q.kind in ("fallthrough", "return")]
+    if len(paths) != 1:
+        res.undecide("LotkaVolterraOscillating.__init__", "%d paths" % len(paths))
+        return res
+    attrs = {}
+    for eff in paths[0].effects:
+        if eff[0] == "attr" and isinstance(eff[-1], ast.AST):
+            attrs[norm_text(eff[1]) if isinstance(eff[1], ast.AST) else str(eff[1])] = eff[-1]
+
+    def last(c):
+        f = c.func
+        return f.attr if isinstance(f, ast.Attribute) else (f.id if isinstance(f, ast.Name) else "")
+
+    def kw(c, name, pos=None):
+        for k in c.keywords:
+            if k.arg == name:
+                return k.value
+        if pos is not None and len(c.args) > pos:
+            return c.args[pos]
+        return None
+
+    def num(e):
+        v = const_number(e)
+        if v is not None:
+            return float(v)
+        try:
+            return float(_int_eval(e, {}))
+        except Exception:
+            pass
+        if isinstance(e, ast.Call) and last(e) in ("sqrt", "log", "exp") and len(e.args) == 1 and not e.keywords:
+            x = num(e.args[0])
+            return {"sqrt": math.sqrt, "log": math.log, "exp": math.exp}[last(e)](x)
+        if isinstance(e, ast.Call) and last(e) in ("tensor", "as_tensor") and e.args:
+            return num(e.args[0])
+        if isinstance(e, ast.BinOp):
+            a, b = num(e.left), num(e.right)
+            if isinstance(e.op, ast.Add):
+                return a + b
+            if isinstance(e.op, ast.Sub):
+                return a - b
+            if isinstance(e.op, ast.Mult):
+                return a * b
+            if isinstance(e.op, ast.Div):
+                return a / b
+            if isinstance(e.op, ast.Pow):
+                return a ** b
+        if isinstance(e, ast.UnaryOp) and isinstance(e.op, ast.USub):
+            return -num(e.operand)
+        raise _NoForm("not a closed number: %s" % norm_text(e)[:40])
+
+    def uniform_vec(e):
+        """(value, length) of c * torch.ones(d) / torch.full((d,), c) / a plain number (length None)"""
+        if isinstance(e, ast.Call) and last(e) == "ones" and e.args:
+            return 1.0, int(num(e.args[0].elts[0] if isinstance(e.args[0], (ast.Tuple, ast.List)) else e.args[0]))
+        if isinstance(e, ast.Call) and last(e) == "full" and len(e.args) >= 2:
+            sh = e.args[0]
+            return num(e.args[1]), int(num(sh.elts[0] if isinstance(sh, (ast.Tuple, ast.List)) else sh))
+        if isinstance(e, ast.BinOp) and isinstance(e.op, ast.Mult):
+            for a, b in ((e.left, e.right), (e.right, e.left)):
+                try:
+                    c = num(a)
+                except _NoForm:
+                    continue
+                v, n = uniform_vec(b)
+                return c * v, n
+        if isinstance(e, ast.UnaryOp) and isinstance(e.op, ast.USub):
+            v, n = uniform_vec(e.operand)
+            return -v, n
+        return num(e), None
+
+    try:
+        g, u, nrm = attrs.get("self._gaussian"), attrs.get("self._uniform"), attrs.get("self._log_normalizer")
+        if g is None or u is None or nrm is None:
+            raise _NoForm("the constructor does not set _gaussian, _uniform and _log_normalizer")
+        if not (isinstance(g, ast.Call) and last(g) == "MultivariateNormal" and isinstance(u, ast.Call) and last(u) == "BoxUniform"):
+            raise _NoForm("_gaussian / _uniform are not MultivariateNormal(..) / BoxUniform(..)")
+        mean = kw(g, "loc", 0)
+        cov = kw(g, "covariance_matrix", 1)
+        if mean is None or cov is None or not (isinstance(cov, ast.BinOp) and isinstance(cov.op, ast.Mult)):
+            raise _NoForm("covariance is not <variance> * torch.eye(d)")
+        eye = next((x for x in (cov.left, cov.right) if isinstance(x, ast.Call) and last(x) == "eye"), None)
+        if eye is None:
+            raise _NoForm("covariance is not <variance> * torch.eye(d)")
+        var = num(cov.right if eye is cov.left else cov.left)
+        d = int(num(eye.args[0]))
+        std = math.sqrt(var)
+        lo, nlo = uniform_vec(kw(u, "low", 0))
+        hi, nhi = uniform_vec(kw(u, "high", 1))
+        hm = shash(mean)
+
+        # -- evaluation of the normaliser: values are ("num", x) | ("aff", a, b) = a + b*m | ("lin", {(p, q): w}, c0)
+        #    = c0 + sum w erf(p + q m) | ("form", const, [(w, lin)]) = const + sum_k w_k sum_i log(lin_k)
+        def ev(e):
+            if isinstance(e, ast.expr) and shash(e) == hm:
+                return ("aff", 0.0, 1.0)
+            try:
+                v, n = uniform_vec(e)
+                return ("num", v)
+            except _NoForm:
+                pass
+            if isinstance(e, ast.UnaryOp) and isinstance(e.op, ast.USub):
+                return scale(ev(e.operand), -1.0)
+            if isinstance(e, ast.BinOp) and isinstance(e.op, (ast.Add, ast.Sub)):
+                a, b = ev(e.left), ev(e.right)
+                return add(a, b if isinstance(e.op, ast.Add) else scale(b, -1.0))
+            if isinstance(e, ast.BinOp) and isinstance(e.op, (ast.Mult, ast.Div)):
+                a, b = ev(e.left), ev(e.right)
+                if isinstance(e.op, ast.Div):
+                    if b[0] != "num":
+                        raise _NoForm("division by a non-constant")
+                    return scale(a, 1.0 / b[1])
+                if a[0] == "num":
+                    return scale(b, a[1])
+                if b[0] == "num":
+                    return scale(a, b[1])
+                raise _NoForm("product of two non-constants")
+            if isinstance(e, ast.Call):
+                name = last(e)
+                f = e.func
+                recv = f.value if isinstance(f, ast.Attribute) and not (isinstance(f.value, ast.Name) and f.value.id in ("torch", "np", "math", "F")) and not (isinstance(f.value, ast.Attribute) and norm_text(f.value) == "torch.special") else None
+                ops = ([recv] if recv is not None else []) + list(e.args)
+                if name == "erf" and len(ops) == 1:
+                    a = ev(ops[0])
+                    if a[0] == "num":
+                        return ("num", math.erf(a[1]))
+                    if a[0] == "aff":
+                        return ("lin", {(a[1], a[2]): 1.0}, 0.0)
+                if name == "log" and len(ops) == 1:
+                    a = ev(ops[0])
+                    if a[0] == "num":
+                        return ("num", math.log(a[1]))
+                    if a[0] == "lin":
+                        return ("logvec", a)
+                if name == "sum" and len(ops) == 1 and not e.keywords:
+                    a = ev(ops[0])
+                    if a[0] == "logvec":
+                        return ("form", 0.0, [(1.0, a[1])])
+                    if a[0] == "num":
+                        try:
+                            _, n = uniform_vec(ops[0])
+                        except _NoForm:
+                            n = None
+                        return ("num", a[1] * (n if n else 1))
+                if name == "log_prob" and recv is not None and norm_text(recv) == "self._uniform":
+                    return ("num", -d * math.log(hi - lo))
+            raise _NoForm("`%s`" % norm_text(e)[:50])
+
+        def scale(v, c):
+            if v[0] == "num":
+                return ("num", v[1] * c)
+            if v[0] == "aff":
+                return ("aff", v[1] * c, v[2] * c)
+            if v[0] == "lin":
+                return ("lin", {k: w * c for k, w in v[1].items()}, v[2] * c)
+            if v[0] == "form":
+                return ("form", v[1] * c, [(w * c, l) for w, l in v[2]])
+            raise _NoForm("scaling a vector of logs before it is summed")
+
+        def add(a, b):
+            if a[0] == "num" and b[0] == "num":
+                return ("num", a[1] + b[1])
+            if {a[0], b[0]} <= {"num", "aff"}:
+                aa = a if a[0] == "aff" else ("aff", a[1], 0.0)
+                bb = b if b[0] == "aff" else ("aff", b[1], 0.0)
+                return ("aff", aa[1] + bb[1], aa[2] + bb[2])
+            if {a[0], b[0]} <= {"num", "lin"}:
+                aa = a if a[0] == "lin" else ("lin", {}, a[1])
+                bb = b if b[0] == "lin" else ("lin", {}, b[1])
+                out = dict(aa[1])
+                for k, w in bb[1].items():
+                    out[k] = out.get(k, 0.0) + w
+                return ("lin", {k: w for k, w in out.items() if abs(w) > 1e-15}, aa[2] + bb[2])
+            if {a[0], b[0]} <= {"num", "form"}:
+                aa = a if a[0] == "form" else ("form", a[1], [])
+                bb = b if b[0] == "form" else ("form", b[1], [])
+                return ("form", aa[1] + bb[1], aa[2] + bb[2])
+            raise _NoForm("sum of %s and %s" % (a[0], b[0]))
+
+        got = ev(nrm)
+        if got[0] == "num":
+            got = ("form", got[1], [])
+        if got[0] != "form":
+            raise _NoForm("the normaliser is not a sum of logs of erf differences")
+    except _NoForm as ex:
+        res.undecide("LotkaVolterraOscillating", "cannot read the constructor as N(m, s^2 I) restricted to a box: %s" % ex)
+        return res
+
+    r2 = std * math.sqrt(2.0)
+    want_lin = {(hi / r2, -1.0 / r2): 0.5, (lo / r2, -1.0 / r2): -0.5}
+    want_const = d * math.log(hi - lo)
+
+    def close(a, b):
+        return abs(a - b) <= 1e-9 * max(1.0, abs(a), abs(b))
+
+    probs = []
+    if len(got[2]) != 1:
+        probs.append("it has %d sum-of-logs terms; one (minus the log of the Gaussian mass of the box) is needed" % len(got[2]))
+    else:
+        w, lin = got[2][0]
+        if not close(w, -1.0):
+            probs.append("the log of the box mass enters with coefficient %g, not -1" % w)
+        terms, c0 = lin[1], lin[2]
+        if abs(c0) > 1e-12 or len(terms) != 2:
+            probs.append("the box mass is not a difference of two erf values")
+        else:
+            keys = sorted(terms, key=lambda k: -k[0])
+            wk = sorted(want_lin, key=lambda k: -k[0])
+            for (pa, qa), (pw, qw), nm in zip(keys, wk, ("upper", "lower")):
+                if not (close(pa, pw) and close(qa, qw)):
+                    probs.append("the %s erf is taken at %.6g %+.6g*m; the Gaussian CDF at the %s end of the box needs (b - m) / (s*sqrt(2)) = %.6g %+.6g*m" % (nm, pa, qa, nm, pw, qw))
+                if not close(terms[(pa, qa)], want_lin[(pw, qw)]):
+                    probs.append("the %s erf has weight %g; Phi(z) = 1/2 (1 + erf(z / sqrt 2)) gives %g" % (nm, terms[(pa, qa)], want_lin[(pw, qw)]))
+    if not close(got[1], want_const):
+        probs.append("its constant part is %.6g; log_prob also adds the uniform density of the box (-d log(hi - lo) = %.6g inside), which needs +%.6g here" % (got[1], -want_const, want_const))
+    # log_prob = normaliser + gaussian + uniform, each once
+    okl = False
+    for path in paths_of(lp.node):
+        if path.kind != "return":
+            continue
+        ts = sorted((sg, norm_text(t)) for sg, t in signed_terms(path.ret))
+        x = lp.params()[0][0] if lp.params() else "value"
+        okl = ts == sorted([(1, "self._log_normalizer"), (1, "self._gaussian.log_prob(%s)" % x), (1, "self._uniform.log_prob(%s)" % x)])
+    if not okl:
+        res.undecide("LotkaVolterraOscillating.log_prob", "not of the form normaliser + gaussian.log_prob(v) + uniform.log_prob(v)")
+        return res
+    if probs:
+        res.fail(Finding("TRUNC-NORM", init.module, init.qualname, nrm, "the prior N(m, %.3g^2 I) restricted to [%g, %g]^%d does not have total mass one: %s" % (std, lo, hi, d, "; ".join(probs)), construct="truncation normaliser"))
+    else:
+        res.ok("LotkaVolterraOscillating: -sum log(1/2 [erf((hi - m)/(s sqrt 2)) - erf((lo - m)/(s sqrt 2))]) + d log(hi - lo)")
+    return res
+
+
 register(
     "C05",
-    [res_rule, null_rule, dist_terms_rule, base_terms_rule, layout_rule],
+    [res_rule, null_rule, dist_terms_rule, base_terms_rule, layout_rule, trunc_norm_rule],
     "Interface-level necessary conditions for every density-returning object. RES: abstract interpretation of the public "
     "log_prob / sample / sample_and_log_prob / mean of every Distribution subclass (and the MADE mixture): every self-attribute "
     "read resolves, and no entry point returns a function object. NULL-1: values originating from parameters whose default is "
@@ -425,7 +690,8 @@ register(
     "dominating `is None` test, no callee that raises on None before use -- is reported with the call path. DIST-TERMS / "
     "BASE-TERMS: signed-sum term accounting of the Bernoulli, Gaussian and mixture log-densities, their reduction axes, and "
     "agreement of parameter roles between log_prob, sample and mean. LEAD-LAYOUT: row/context alignment in samplers (abstract leading-axis layouts). Normalising "
-    "constants, sampling laws and the truncation normaliser of LotkaVolterraOscillating are integrals/statistics and are NOT "
-    "decided (a real defect in that normaliser was observed by reading and is recorded in DESIGN.md as out of reach).",
+    "constants as closed forms: BASE-TERMS for the Gaussians, TRUNC-NORM for the box-restricted Gaussian prior (its constant, "
+    "evaluated with the mean as the only symbol, equals -sum log(1/2 [erf((hi - m)/(s sqrt 2)) - erf((lo - m)/(s sqrt 2))]) + "
+    "d log(hi - lo) for the s, lo, hi, d the constructor uses). Sampling laws (statistics) are NOT decided.",
     [A_NET, A_API, T_OPS],
 )
